@@ -72,7 +72,14 @@ CHECKS = {
             "prefixes and interleavings, and begin with the prefix; the f-string is re-read from the source each run. "
             "Proof (partial): FreshUuids and step atomicity are assumptions; real threads and a forced "
             "read-read-write-write race are run against the implementation.", "", "DESIGN.md 5/C19"),
-    "C20": (TV, "Lean model + correspondence (proofs in progress)", CORR, "", "DESIGN.md 5/C20"),
+    "C20": (PR, "Lean 4 theorems: _begin_apply rejects every ill-formed non-trivial unary request under every option; chain/join/slice rejections; regenerated Slice constructor + correspondence",
+            "Machine-checked on any target tree in any engine: an operation that is not a no-op and is ill-formed for the "
+            "target's columns raises ColumnError from apply for EVERY combination of preferred_engine/backtrack/transfer/"
+            "require options; chain with different engines/columns -> EngineError/ColumnError; join predicate column missing "
+            "from both operands -> ColumnError through every option; negative/reversed slice -> ValueError, step != 1 -> "
+            "TypeError (constructor check regenerated from source); unsupported calculation -> EngineError. Proof "
+            "(partial): cross-engine joins without transfer and unsupported expressions merged with an upstream operation "
+            "are validated by the oracle, not proved. " + CORR, "", "DESIGN.md 5/C20"),
 }
 
 _PENDING = "check not built yet in this revision (planned: see DESIGN.md section 5)"
